@@ -13,11 +13,12 @@ trap 'rm -rf "$d"' EXIT
 git clone -q /repo "$d/repo" || exit 2
 demo=$(ls "$src"/demo.py "$src"/demo.sh 2>/dev/null | head -1)
 [ -n "$demo" ] || { echo "$id: NO-DEMO"; exit 3; }
-mkdir -p "$d/repo/rt_out/$id"
-cp "$src"/* "$d/repo/rt_out/$id/" 2>/dev/null
+sid=$(basename "$src")
+mkdir -p "$d/repo/rt_out/$sid"
+cp "$src"/* "$d/repo/rt_out/$sid/" 2>/dev/null
 run_demo() {
-  if [ "${demo##*.}" = "py" ]; then (cd "$d/repo" && timeout 600 /venv/bin/python "rt_out/$id/$(basename "$demo")" >"$d/demo.$1.log" 2>&1)
-  else (cd "$d/repo" && timeout 600 sh "rt_out/$id/$(basename "$demo")" >"$d/demo.$1.log" 2>&1); fi
+  if [ "${demo##*.}" = "py" ]; then (cd "$d/repo" && timeout 600 /venv/bin/python "rt_out/$sid/$(basename "$demo")" >"$d/demo.$1.log" 2>&1)
+  else (cd "$d/repo" && timeout 600 sh "rt_out/$sid/$(basename "$demo")" >"$d/demo.$1.log" 2>&1); fi
 }
 run_demo head; r_head=$?
 if ! git -C "$d/repo" apply --3way --whitespace=nowarn "$src/patch.diff" >"$d/apply.log" 2>&1 || grep -rq '^<<<<<<<' "$d/repo/ddsmt" "$d/repo/bin"; then
